@@ -10,7 +10,7 @@ FAMILY = {
     "C03": {"Count", "Budget", "StopLate", "StopEarly", "Accuracy", "SolveReturns", "NoIntExc", "DgiCount",
             "SolveReturnsResults"},
     "C04": {"BestValue", "BestIsTrial", "BestAtPoint", "BestPresent"},
-    "C05": {"InBox", "RefInBox", "RefNotWorse", "RefValue", "RefPointInBox", "UnexpectedEvaluation", "LocalCount"},
+    "C05": {"InBox", "RefInBox", "RefNotWorse", "RefValue", "RefPointInBox", "UnexpectedEvaluation"},
     "C06": {"SnapCount", "SnapLinks", "SnapOrder", "SnapZ", "SnapHolder", "SnapDelta", "SnapImage", "SnapEnds",
             "SnapIter", "ZLogged", "YLogged", "Image", "SameHolder"},
     "C16": {"FailContained", "Count", "BestValue", "BestIsTrial", "BestPresent", "SnapCount", "SnapLinks", "SnapOrder",
